@@ -47,6 +47,24 @@ EXTENDED: T.List[str] = CORE + [
     '  not ok 1 indented is not a test line',
 ]
 
+# yaml13: the lines that decide whether a YAML block is entered, left or left open, enumerated DEEPER than the core alphabet and
+# always behind a `TAP version 13` first line (element 0; the enumeration fixes it as the first line).  Column-0 diagnostics and
+# completely empty lines are part of it: whether they sit before the `  ---`, inside the block or after it changes the outcome.
+YAML13: T.List[str] = [
+    'TAP version 13',
+    'ok',
+    'not ok 2 # TODO wip',
+    '  ---',
+    '  ...',
+    '  k: v',
+    '# comment',
+    '',                         # completely empty line
+    'garbage',
+    '1..2',
+]
+
+ALPHABETS: T.Dict[str, T.List[str]] = {'core': CORE, 'ext': EXTENDED, 'yaml13': YAML13}
+
 WORDS = ['alpha', 'beta', 'the test', 'x', 'café', '測試', 'a-b', 'q.r', 'n 2', 'ok', 'not', 'skip', 'todo',
          'with  two spaces', '1..2 inside', 'Bail', 'TAP', '\U0001f600']
 REASONS = ['', 'why', 'not yet', 'because of 1..3', 'see #12', 'café']
